@@ -11,6 +11,8 @@
 // digest3 of coq/AnyIdModel.v; the test Storage Val keeps (kind, content) with kind 0 for int/long
 // and kind 1 for std::string/Name, and supports == and < (kind first, then content).
 //   -DVH_WIDE=1  the test digester spreads its eight values over the whole range of unsigned int (digest3 * 0x24924924),
+//   -DVH_WIDE=3  the digest is a 128-bit pair whose conversion to std::size_t is lossy (see DigT below); the `hh` lines (which
+//                hashes are equal) then differ from the model's, whose hash is the identity, and are left out of the comparison
 //   -DVH_WIDE=2  over the whole range of std::size_t: the order of the digests is the same (the scaling is monotone and
 //                does not overflow) and the trace prints the unscaled value, so the model's trace is unchanged — but two
 //                digests may now be further apart than half the range of their type
@@ -46,6 +48,20 @@ unsigned int digest3(int tag, long n)
 	return (unsigned int)((n * 5 + n / 8 + salt) % 8);
 }
 
+#if VH_WIDE == 3
+// a digest WIDER than std::size_t whose conversion to std::size_t (what MakeHash uses for std::hash<AnyId>) is lossy: the
+// eight test digests d become (hi, lo) = (d / 2, d % 2), ordered and compared like d, hashed as hi ^ lo — so different
+// digests (1 and 2, 5 and 6, …) have equal hashes.  Equality and order of ids must follow the DIGEST, never its hash.
+struct DigT
+{
+	unsigned long long hi, lo;
+	operator std::size_t () const { return (std::size_t)(hi ^ lo); }
+};
+inline bool operator == (const DigT & a, const DigT & b) { return a.hi == b.hi && a.lo == b.lo; }
+inline bool operator < (const DigT & a, const DigT & b) { return a.hi < b.hi || (a.hi == b.hi && a.lo < b.lo); }
+inline DigT makeDig(unsigned int d) { return DigT{d / 2, d % 2}; }
+inline long shownDig(const DigT & d) { return (long)(d.hi * 2 + d.lo); }
+#else
 #if VH_WIDE == 1
 using DigT = unsigned int;
 constexpr DigT digScale = 0x24924924u;
@@ -57,12 +73,15 @@ using DigT = unsigned int;
 constexpr DigT digScale = 1;
 #endif
 static_assert((DigT)(7 * digScale) / 7 == digScale, "the scaled digests must not overflow");
+inline DigT makeDig(unsigned int d) { return d * digScale; }
+inline long shownDig(const DigT & d) { return (long)(d / digScale); }
+#endif
 
 template <typename T> struct Dig3;
-template <> struct Dig3<int> { DigT operator() (int v) const { return digest3(0, v) * digScale; } };
-template <> struct Dig3<std::string> { DigT operator() (const std::string & v) const { return digest3(1, std::stol(v)) * digScale; } };
-template <> struct Dig3<long> { DigT operator() (long v) const { return digest3(2, v) * digScale; } };
-template <> struct Dig3<Name> { DigT operator() (const Name & v) const { return digest3(3, std::stol(v.text)) * digScale; } };
+template <> struct Dig3<int> { DigT operator() (int v) const { return makeDig(digest3(0, v)); } };
+template <> struct Dig3<std::string> { DigT operator() (const std::string & v) const { return makeDig(digest3(1, std::stol(v))); } };
+template <> struct Dig3<long> { DigT operator() (long v) const { return makeDig(digest3(2, v)); } };
+template <> struct Dig3<Name> { DigT operator() (const Name & v) const { return makeDig(digest3(3, std::stol(v.text))); } };
 
 // a variant-like value type over mixed source types, comparable with == and <
 struct Val
@@ -152,7 +171,7 @@ void runCase(const char * storage, const std::vector<Source> & sources, const st
 	const long n = (long)ids.size();
 	std::printf("storage %s\n", storage);
 	std::printf("dig");
-	for(const Id & x : ids) std::printf(" %ld", (long)(x.getDigest() / digScale));
+	for(const Id & x : ids) std::printf(" %ld", shownDig(x.getDigest()));
 	std::printf("\n");
 
 	std::vector<std::vector<char>> eq(n, std::vector<char>(n)), lt(n, std::vector<char>(n)), hh(n, std::vector<char>(n));
